@@ -443,7 +443,8 @@ def record_discipline(ck, ctx, rule="record-discipline"):
         it_none, it_some = C.option_edges(ctx, b, lambda s, bb=bb: s[0] == "call" and s[1].endswith("Iterator>::next") and any(c[1] == "graph::Build::discovered_ins" for c in calls_in(s)))
         starts = [tt for (x, lab) in it_some for tt in cfg.edge_targets(x, lab)]
         skip = cfg.enclosing_loop_header(bb) in cfg.reach_avoid(starts, avoid_blocks=[bb])
-        ck.ob(rule, "restat-inputs#%d|every-input" % i, bad == [] and not skip, "every input is re-stat'ed: no early exit (%s), no skipping" % bad, span=t["loc"], fn=b.nname)
+        whole, bad_ad = C.iter_is_whole(ide)
+        ck.ob(rule, "restat-inputs#%d|every-input" % i, bad == [] and not skip and whole, "every input is re-stat'ed: no early exit (%s), no skipping, no limiting iterator adapter (%s)" % (bad, bad_ad or "none"), span=t["loc"], fn=b.nname)
     # write_build is reached only with nothing missing, after both stats, with a hash computed after them
     for i, (wb_, bb, t) in enumerate(sites):
         if wb_.nname != RF:
